@@ -52,6 +52,7 @@ CONSTANTS
   CfgRetries = {rets}
   CfgRoutes = {routes}
   CfgModes = {modes}
+  SampleM = {sample}
 CONSTRAINT ShardC
 {invs}
 CHECK_DEADLOCK FALSE
@@ -71,7 +72,7 @@ CONSTANTS
   TreeTraits <- TrNone
 CHECK_DEADLOCK FALSE
 """
-ALL = dict(ns="{1, 2}", rets='{"F", "0", "1", "R2"}', routes='{"direct", "fwd"}', modes="{1, 2, 3, 4}", badargs="FALSE")
+ALL = dict(ns="{1, 2}", rets='{"F", "0", "1", "R2"}', routes='{"direct", "fwd"}', modes="{1, 2, 3, 4}", badargs="FALSE", sample=1)
 
 
 TRAITS = {"v": None, "put_without_checkout": None}
@@ -104,15 +105,19 @@ def plan_cfg(plan, k=1, s=0, emit=False, invs=True, defects="MCNoDefects"):
 
 
 # plans: (name, constants).  The state space of each plan is partitioned exactly by the shards.
+# quick: the same products, sampled by TLC itself (SampleM: index sum 0 modulo 3 -- pairwise over configuration x
+# outcome x disposal, see MC_Pool.tla); thorough: the full products.
 QUICK_PLANS = [
     ("1req", dict(maxreqs=1, first="MCAll", later="MCMicroN", disp="MCDispAll", held=0, cuts="FALSE", ns="{1}",
-                  badargs="TRUE")),
-    ("2req", dict(maxreqs=2, first="MCTinyN", later="MCMicro", disp="MCDispMicro", held=1, cuts="TRUE",
-                  rets='{"F", "1"}', ns="{1}", routes='{"direct"}', badargs="TRUE")),
+                  badargs="TRUE", sample=3)),
+    ("2req", dict(maxreqs=2, first="MCTinyS", later="MCMicro", disp="MCDispMicro", held=1, cuts="TRUE",
+                  rets='{"F", "1"}', ns="{1}", routes='{"direct"}', badargs="TRUE", sample=3)),
 ]
+COVPLAN_QUICK = dict(maxreqs=2, first="MCTinyS", later="MCMicro", disp="MCDispMicro", held=1, cuts="TRUE",
+                     rets='{"1"}', ns="{1}", routes='{"direct"}', modes="{2, 4}", badargs="TRUE")
 THOROUGH_PLANS = [
-    ("1req-full", dict(maxreqs=1, first="MCAll", later="MCAll", disp="MCDispAll", held=0, cuts="FALSE", badargs="TRUE")),
-    ("2req", dict(maxreqs=2, first="MCTinyN", later="MCTinyN", disp="MCDispSmall", held=1, cuts="TRUE",
+    ("1req-full", dict(maxreqs=1, first="MCAll", later="MCReps", disp="MCDispAll", held=0, cuts="FALSE", badargs="TRUE")),
+    ("2req", dict(maxreqs=2, first="MCTinyS", later="MCMicro", disp="MCDispMicro", held=1, cuts="TRUE",
                   rets='{"F", "1"}', ns="{1}", routes='{"direct"}', badargs="TRUE")),
     ("2req-wide", dict(maxreqs=2, first="MCTiny", later="MCTiny", disp="MCDispSmall", held=1, cuts="TRUE",
                        rets='{"0", "R2"}', ns="{2}")),
@@ -124,10 +129,14 @@ SMALL = dict(maxreqs=2, first="MCSmall", later="MCTiny", disp="MCDispAll", held=
              rets='{"F", "1"}', routes='{"direct"}')
 SMALLB = dict(maxreqs=2, first="MCTinyN", later="MCMicroN", disp="MCDispMicro", held=1, cuts="FALSE", ns="{1}",
               rets='{"F", "1"}', routes='{"direct"}', badargs="TRUE")
+SMALLS = dict(maxreqs=1, first="MCTinyS", later="MCMicro", disp="MCDispAll", held=0, cuts="FALSE", ns="{1}",
+              rets='{"1", "R2"}', routes='{"direct"}', modes="{2}")
 DEVIATIONS = [
     ("MCF1", "SlotsRestored", SMALL),                      # finding C01-F1 (repaired by f312ad5)
     ("MCReleaseOnlyIfConn", "SlotsRestored", SMALLB),      # release only when a connection object exists
     ("MCPutWithoutCheckout", "SlotsConserved", SMALLB),    # finding C01-F2: placeholder given back without a checkout
+    ("MCSleepBeforeDrain", "SlotsRestored", SMALLS),      # back-off before drain_conn(); the sleep fails
+    ("MCRead1EndDoesNotClose", "SlotsRestored", SMALLS),   # read1() delivers the last byte without closing
     ("MCMutFinallyNoRelease", "SlotsRestored", SMALL),
     ("MCMutCloseNoRelease", "SlotsRestored", SMALL),
     ("MCMutExcept", "OnlyUrllib3Errors", SMALL),
@@ -560,8 +569,10 @@ def run(rep):
                        "called close() and the peer saw EOF after the caller dropped its responses and gc.collect()",
                        "TLC 1.8, CPython http.client and vh/net.py are trusted"]
     k = max(1, JOBS)
-    covplan = dict(plans[1][1])
-    devs = DEVIATIONS[:4] if quick else DEVIATIONS
+    # quick: a small dedicated plan that still takes every action; thorough: the "2req" plan itself, whose Finish
+    # count is then compared with what the shards emitted
+    covplan = dict(COVPLAN_QUICK) if quick else dict(plans[1][1])
+    devs = DEVIATIONS[:6] if quick else DEVIATIONS
     nrand, chunks = (1600, 8) if quick else (60000, 48)      # chunking independent of VERIF_JOBS: same seed,
     per = nrand // chunks                                       # same histories on any machine
     # One task list, heaviest first, so that the JVMs of stage 1 overlap with emission / replay / validation:
@@ -597,9 +608,11 @@ def run(rep):
         emitted = sum(o["emitted"] for o in po)
         if emitted == 0:
             raise tlc.MachineryError(f"plan {name}: nothing emitted")
-        if plan == covplan and emitted != finish_expected:
-            raise tlc.MachineryError(f"plan {name}: {emitted} histories emitted by the shards, the unsharded run "
-                                     f"counted {finish_expected} Finish states")
+        m = int(plan.get("sample", 1))
+        if plan == covplan and not (emitted == finish_expected if m == 1 else
+                                    0.7 * finish_expected <= emitted * m <= 1.3 * finish_expected):
+            raise tlc.MachineryError(f"plan {name}: {emitted} histories emitted by the shards (sample 1/{m}), the "
+                                     f"unsharded run counted {finish_expected} Finish states")
         rep.states += sum(o["distinct"] for o in po)
         rep.transitions += sum(o["generated"] for o in po)
         rep.stage1.append({"run": f"MC_Pool {name} {json.dumps(plan)} ({k} shards, invariants checked)",
